@@ -207,8 +207,9 @@ def check_L(part, job):
                 fail("parseval-cplx", "sum |c|^2 = %.12g but integral |f|^2 = %.12g" % (np.sum(np.abs(back) ** 2), integral))
             ps = sht.power_spectrum(a)
             want = np.array([np.mean(np.abs(a[l * l:(l + 1) ** 2]) ** 2) for l in range(L + 1)])
-            if np.abs(ps - want).max() > 1e-12 * max(1.0, want.max()):
-                fail("power-spectrum-cplx", "power_spectrum differs from the per-degree mean of |c|^2")
+            if np.shape(ps) != want.shape or np.abs(ps - want).max() > 1e-12 * max(1.0, want.max()):
+                fail("power-spectrum-cplx", "power_spectrum of a complex-layout vector (%d entries) %s" % (len(a), "has %d values for %d degrees" % (len(ps), L + 1) if np.shape(ps) != want.shape
+                                                                                                          else "differs from the per-degree mean of |c|^2"))
         r = dense(len(lmr), which)
         r[: L + 1] = r[: L + 1].real
         fr = sht.synthesis(r)
@@ -221,7 +222,7 @@ def check_L(part, job):
         full = ylm.complete(L, r)
         ps = sht.power_spectrum(r)
         want = np.array([np.mean(np.abs(full[l * l:(l + 1) ** 2]) ** 2) for l in range(L + 1)])
-        if np.abs(ps - want).max() > 1e-12 * max(1.0, want.max()):
+        if np.shape(ps) != want.shape or np.abs(ps - want).max() > 1e-12 * max(1.0, want.max()):
             fail("power-spectrum-real", "power_spectrum (real layout) differs from the per-degree mean of |c|^2 of the completed vector")
         fq = ylm.synth_real(L, r, T, P) if use_ref and which == 0 else None
         integral = float(np.sum(fq ** 2 * W)) if fq is not None else float(np.sum(np.abs(full) ** 2))
